@@ -15,8 +15,8 @@ ASSUMPTIONS = ["parser, AST-to-proto lowering, linker+option interpretation and 
                "heap aliasing inside protobuf-go messages and inside the AST is abstracted: proto.Clone / parser.Clone give a fresh object with an equal value, the AST object is shared and never written; the harness checks exactly this on the real objects (deep hash before/after)",
                "the concurrent theorem treats asParseResult, link and the source-info step as atomic steps of a task; finer-grained data races are only exercised (thorough tier builds the harness with -race), not proved"]
 
-FORMS = ["source", "ast", "result", "proto", "proto_si"]
-COQ_FORM = {"source": "FSource", "ast": "FAst", "result": "FRes", "proto": "FProto", "proto_si": "FProtoSI"}
+FORMS = ["source", "ast", "result", "result_noast", "proto", "proto_si"]
+COQ_FORM = {"source": "FSource", "ast": "FAst", "result": "FRes", "result_noast": "FResNoAst", "proto": "FProto", "proto_si": "FProtoSI"}
 HAS_AST = {"source", "ast", "result"}
 
 
@@ -47,7 +47,7 @@ def run(ctx):
     modes_all = [0, 1, 3, 7, 2, 4]
     ctx.rule = ("%d generated multi-file programs (1-3 files, proto2/proto3/editions, imports, custom options, extensions, services) and near-valid variants "
                 "that fail while linking; x source-info modes {none, standard, +extra comments, +extra option locations}; x every assignment of an input form "
-                "(source / AST / parser.Result / FileDescriptorProto / FileDescriptorProto with source info attached) per file for programs of <= %d files, "
+                "(source / AST / parser.Result / parser.Result without AST / FileDescriptorProto / FileDescriptorProto with source info attached) per file for programs of <= %d files, "
                 "%d random assignments otherwise; every case compiles twice on the same supplied objects (some with 3 concurrent compilers); "
                 "one evaluation = one (program, mode, assignment); non-trivial = at least one file is not given as source" % (nprog, full_upto, sample))
     cfg = pgenlib.Cfg(max_files=3, size=2, max_depth=2)
